@@ -111,6 +111,7 @@ type FuncContract struct {
 	NoContent  []string // element types whose slice contents are not tracked on append ("[]string")
 	Trusted    string
 	AllowPanic bool
+	TrackLocks bool
 	DataflowOnly string // non-empty: only contract-derived obligations are generated (no nil/bounds/overflow/frame/panic checks)
 	Notes      []string
 	CallSites  map[string]*CallSiteSpec
@@ -143,7 +144,7 @@ type PkgContracts struct {
 var clauseKeywords = map[string]bool{
 	"pred": true, "spec": true, "pool": true, "ghostfield": true, "ufun": true, "axiom": true, "lemma": true, "func": true, "extern": true,
 	"props": true, "mode": true, "requires": true, "ensures": true, "modifies": true, "loop": true,
-	"assume": true, "trusted": true, "ghost": true, "allow-panic": true, "dataflow-only": true, "note": true, "callsite": true, "assert": true, "allocates": true, "unreachable": true, "inherit": true, "region": true,
+	"assume": true, "trusted": true, "ghost": true, "allow-panic": true, "dataflow-only": true, "track-locks": true, "note": true, "callsite": true, "assert": true, "allocates": true, "unreachable": true, "inherit": true, "region": true,
 }
 
 func parseParams(s string) ([]Param, error) {
@@ -720,6 +721,10 @@ func parseContractFile(path string, pc *PkgContracts) error {
 				if cur.DataflowOnly == "" {
 					cur.DataflowOnly = "only the stated clauses are checked"
 				}
+			case "track-locks":
+				// track-locks : Lock/Unlock (sync.Mutex, sync.RWMutex) update a ghost "held" bit per mutex location in
+				// this unit; clauses may use held(x.mu). Without it mutex operations are no-ops for the verifier.
+				cur.TrackLocks = true
 			case "allow-panic":
 				cur.AllowPanic = true
 			case "note":
